@@ -119,10 +119,10 @@ func seqScenario(kind, length int) *explore.Scenario {
 }
 
 type call struct {
-	client     int
-	op         int
-	out        bool
-	call, ret  int64
+	client    int
+	op        int
+	out       bool
+	call, ret int64
 }
 
 var model = porcupine.Model{
